@@ -259,7 +259,9 @@ def gen_nest(rng, depth, ids):
     tup = rng.random() < .25
     names = tuple(rng.sample(['x', 'y', 'z', 'w'], 2)) if tup else (rng.choice(NAMES),)
     kind = rng.choice(['list', 'tuple', 'gen', 'iter', 'range', 'none', 'str', 'userlist', 'sizedgen']) if not tup else rng.choice(
-        ['pairs', 'dictitems', 'genpairs', 'none', 'userdictitems', 'sizedgenpairs', 'dictpairkeys', 'dictstrkeys'])
+        ['pairs', 'dictitems', 'genpairs', 'none', 'userdictitems', 'sizedgenpairs', 'dictpairkeys', 'dictstrkeys',
+         # the items themselves are one-shot: unpacking is the only time they may be iterated
+         'iteritems', 'genitems', 'reverseditems', 'mapitems'])
     n = rng.choice([0, 1, 2, 3])
     return Loop(names, kind, n, kids, rng.choice(['tal', 'span']), rng.choice([0, 0, 0, 1, 2, 3, 4]))
 
@@ -291,6 +293,14 @@ def make_iterable(loop, uid):
         return SizedGen(('%s%d' % (uid, i), i) for i in range(n))
     if k == 'pairs':
         return [('%s%d' % (uid, i), i) for i in range(n)]
+    if k == 'iteritems':
+        return [iter(('%s%d' % (uid, i), i)) for i in range(n)]
+    if k == 'genitems':
+        return [(x for x in ('%s%d' % (uid, i), i)) for i in range(n)]
+    if k == 'reverseditems':
+        return [reversed((i, '%s%d' % (uid, i))) for i in range(n)]
+    if k == 'mapitems':
+        return map(iter, [('%s%d' % (uid, i), i) for i in range(n)])
     if k == 'genpairs':
         return (('%s%d' % (uid, i), i) for i in range(n))
     if k == 'dictitems':
@@ -602,6 +612,41 @@ def layer_variable_names(ctx, n):
                           {'kind': 'selfref', 'src': src})
 
 
+def layer_repeat_seen_from_macros(ctx, n):
+    """repeat[name] belongs to the loop, not to the text of the loop body: a macro of another template used inside the
+    body, and a caller's filler for a slot that a macro repeats, read the position of the loop they run in - also when
+    the loop body itself never mentions 'repeat', and when an earlier loop used the same name."""
+    from chameleon import PageTemplate
+    rng = ctx.rng
+    row = PageTemplate('<x><i metal:define-macro="row">[${repeat.item.index}/${repeat.item.number}/${repeat[\'item\'].end}/${repeat.item.letter}:${item}]</i>'
+                       '<u metal:define-macro="list"><tal:r repeat="entry es"><b metal:define-slot="cell">d</b></tal:r></u></x>')
+    for case in range(n):
+        n1, n0 = rng.randint(0, 5), rng.randint(0, 3)
+        mode = rng.choice(['macro-reads-caller-loop', 'filler-reads-macro-loop'])
+        earlier = rng.random() < .4
+        name = 'item' if mode == 'macro-reads-caller-loop' else 'entry'
+        pre = '<tal:r repeat="%s first">.</tal:r>' % name if earlier else ''
+        if mode == 'macro-reads-caller-loop':
+            src = '<r>%s<tal:r repeat="item xs"><i metal:use-macro="lib.macros[\'row\']"/></tal:r></r>' % pre
+            want = '<r>%s%s</r>' % ('.' * n0 if earlier else '', ''.join(
+                '<i>[%d/%d/%d/%s:%s]</i>' % (i, i + 1, int(i == n1 - 1), letter(i), 'v%d' % i) for i in range(n1)))
+        else:
+            src = ('<r>%s<u metal:use-macro="lib.macros[\'list\']"><b metal:fill-slot="cell">(${repeat.entry.index}/${repeat.entry.length}/'
+                   '${repeat.entry.end}:${entry})</b></u></r>' % pre)
+            want = '<r>%s<u>%s</u></r>' % ('.' * n0 if earlier else '', ''.join(
+                '<b>(%d/%d/%d:%s)</b>' % (i, n1, int(i == n1 - 1), 'v%d' % i) for i in range(n1)))
+        vals = ['v%d' % i for i in range(n1)]
+        try:
+            got = PageTemplate(src)(lib=row, xs=vals, es=vals, first=list(range(n0)))
+        except Exception as e:
+            got = 'RAISED %s: %s' % (type(e).__name__, str(e).split('\n')[0][:100])
+        ctx.mon('repeat-read-from-macros-compared')
+        ctx.case(key=('repeat-from-macro', mode, min(n1, 3), earlier, min(n0, 2)), nontrivial=n1 > 0)
+        if got != want:
+            ctx.violation('repeat-entry-not-visible-from-macro-or-filler:' + mode, 'template %r with %d items (earlier loop of the same name: %s, %d items): '
+                          'rendered %r, expected %r' % (src, n1, earlier, n0, got, want), {'kind': 'frommacro', 'src': src, 'n': n1, 'n0': n0})
+
+
 def run(ctx):
     monitors.install(ctx, tokalg=False)
     install_repeat_contract(ctx)
@@ -611,6 +656,7 @@ def run(ctx):
     layer_reentrant(ctx, 40 if ctx.quick else 600)
     layer_self_reference(ctx, 30 if ctx.quick else 500)
     layer_variable_names(ctx, 40 if ctx.quick else 600)
+    layer_repeat_seen_from_macros(ctx, 30 if ctx.quick else 400)
 
 
 def replay(data):
